@@ -22,7 +22,10 @@ def median_by_pair(triplets):
 
 
 def parse_tsv(text):
-    rows = list(csv.reader(text.splitlines(), delimiter='\t'))
+    lines = text.split('\n')
+    if lines and lines[-1] == '':
+        lines.pop()
+    rows = list(csv.reader([ln[:-1] if ln.endswith('\r') else ln for ln in lines], delimiter='\t'))
     if not rows:
         return [], []
     return rows[0], rows[1:]
